@@ -163,6 +163,11 @@ func runTok(c *core.Ctx) {
 		var callees []*ssa.Function
 		for _, ci := range calls(fn) {
 			if sc := an.StaticCallee(ci.Common()); sc != nil && P.InModule(sc) {
+				// (what runs before the token is taken on every way to it — `if !ss.acquireSlot(ctx) {
+				// return }; s := <-ss.okStat` — is not done while holding it)
+				if acqIn, isIn := acq.(ssa.Instruction); isIn && an.InstrDominates(ci, acqIn) && !an.InLoop(ci.Block()) {
+					continue
+				}
 				if _, isDefer := ci.(*ssa.Defer); !isDefer && !borrowers[sc] {
 					callees = append(callees, sc)
 				}
@@ -938,6 +943,54 @@ func runDispatch(c *core.Ctx) {
 		c.CountSites(1)
 		c.Check(good, props, fname(c, disp), "clause["+t+"]", P.Pos(disp.Pos()), h.Name()+" (which takes the reply as *"+t+") is called only from the *"+t+" clause", h.Name()+" takes the reply as *"+t+" but is not called exclusively from the clause that established that type: a panic kills the session")
 	}
+	// the dispatcher changes the merge state (EOSE flags, cursor, seen-set, reply slots): it runs
+	// once per message taken from the children — a call inside a loop that does not take a new
+	// message (a retry around classify+send) classifies the same message against the state its
+	// own first classification left behind
+	{
+		var sites []string
+		n := 0
+		for _, root := range sessionFuncs(c) {
+			if root == disp {
+				continue
+			}
+			an.Region(root, func(g *ssa.Function) bool { return g == disp }, func(o an.Occ) {
+				call, ok := o.In.(*ssa.Call)
+				if !ok || an.StaticCallee(&call.Call) != disp {
+					return
+				}
+				// only from the function that takes the envelope off a channel
+				recvs := envelopeRecvBlocks(root, disp)
+				if len(recvs) == 0 {
+					return
+				}
+				n++
+				bad := ""
+				// inside helpers: not in a loop at all
+				for i, cs := range o.Chain {
+					if i > 0 && an.InLoop(cs.Block()) {
+						bad = "the call chain passes a loop in " + cs.Parent().Name()
+					}
+				}
+				if len(o.Chain) > 0 && an.InLoop(call.Block()) {
+					bad = "called in a loop of " + call.Parent().Name()
+				}
+				// in the receiving function: every way round a loop back to the call takes a new message
+				site := o.Site()
+				for _, sc := range site.Block().Succs {
+					if !recvs[sc] && !recvs[site.Block()] && an.Reachable(sc, site.Block(), nil, recvs) {
+						bad = "a loop in " + root.Name() + " reaches the call again without receiving a new message"
+					}
+				}
+				if bad != "" {
+					sites = append(sites, bad+" ("+P.Pos(call.Pos())+")")
+				}
+			})
+		}
+		c.CountSites(n)
+		c.Check(n > 0 && len(sites) == 0, []string{"C08", "C09"}, fname(c, disp), "once-per-message", P.Pos(disp.Pos()), fmt.Sprintf("%d call(s) of the dispatcher, each once per message received from the children", n),
+			"the state-changing dispatcher can run more than once for one child message: "+strings.Join(sites, "; ")+" — the second run sees the first one's bookkeeping (EOSE already marked, id already seen, slot already cleared) and drops the message")
+	}
 	// default clause forwards the child's message unchanged
 	okDef := false
 	for _, rb := range an.ReturnBlocks(disp) {
@@ -1670,4 +1723,35 @@ func runOkAgg(c *core.Ctx) {
 	})
 	c.CountPaths(n)
 	c.Check(ok && contains && forced, nil, fname(c, ready), "ready", P.Pos(ready.Pos()), "Ready ⇒ the slot exists and holds a reply of every child (a nil entry forces 'not ready')", "Ready does not require a reply of every child ("+forcedWhy+"): the aggregate is sent before all children answered")
+}
+
+// envelopeRecvBlocks: the blocks of root (a function, with its closures not considered) in which a
+// value of the dispatcher's envelope type is received from a channel (`msg := <-ch`, or a select case).
+func envelopeRecvBlocks(root, disp *ssa.Function) map[*ssa.BasicBlock]bool {
+	out := map[*ssa.BasicBlock]bool{}
+	if len(disp.Params) < 2 {
+		return out
+	}
+	env := disp.Params[len(disp.Params)-1].Type()
+	isEnvChan := func(t types.Type) bool {
+		ch, ok := t.Underlying().(*types.Chan)
+		return ok && types.Identical(ch.Elem(), env)
+	}
+	for _, b := range root.Blocks {
+		for _, in := range b.Instrs {
+			switch x := in.(type) {
+			case *ssa.UnOp:
+				if x.Op == token.ARROW && isEnvChan(x.X.Type()) {
+					out[b] = true
+				}
+			case *ssa.Select:
+				for _, st := range x.States {
+					if st.Dir == types.RecvOnly && isEnvChan(st.Chan.Type()) {
+						out[b] = true
+					}
+				}
+			}
+		}
+	}
+	return out
 }
